@@ -254,9 +254,9 @@ def r4_resolver(ctx) -> None:
     r.floor("C14.R4", 4)
 
 
-def r5_operands_not_consumed(ctx) -> None:
+def r5_operands_not_consumed(ctx, rid: str = "C14.R5", skip_clear: bool = False) -> None:
     r, prog = ctx.r, ctx.prog
-    r.rule("C14.R5", "binary operators do not write to their operands and do not put operand-owned mutable objects into the result without copying")
+    r.rule(rid, "binary operators do not write to their operands and do not put operand-owned mutable objects into the result without copying")
     for fn in (PP + ".__add__", PP + ".__radd__"):
         f = prog.func(fn)
         operands = [p for p in f.params()]
@@ -266,22 +266,22 @@ def r5_operands_not_consumed(ctx) -> None:
                 recv = unparse(n.func.value)
                 root = recv.split(".")[0].split("[")[0]
                 if n.func.attr in ("update", "append", "extend", "clear", "pop", "insert", "remove", "setdefault", "sort", "reverse") and root in operands:
-                    r.violation("C14.R5", f.qual, short(n, 100), f"'+' mutates its operand ({recv}): resolving or adding the same pipeline object again sees the leftovers of the previous sum", loc)
-                elif n.func.attr == "_clear_pipeline" and root in operands:
-                    r.violation("C14.R5", f.qual, short(n, 80),
+                    r.violation(rid, f.qual, short(n, 100), f"'+' mutates its operand ({recv}): resolving or adding the same pipeline object again sees the leftovers of the previous sum", loc)
+                elif n.func.attr == "_clear_pipeline" and root in operands and not skip_clear:
+                    r.violation(rid, f.qual, short(n, 80),
                                 f"'+' strips {recv} of the ownership of its items and moves the item objects into the sum: an operand that is used again afterwards "
                                 f"(a pipeline resolved twice, the class-level backend pipeline, one pipeline given to two backends) runs items whose state back-pointer belongs to the last sum built", loc)
             if isinstance(n, (ast.Assign, ast.AugAssign)):
                 tgts = n.targets if isinstance(n, ast.Assign) else [n.target]
                 for t in tgts:
                     if isinstance(t, (ast.Attribute, ast.Subscript)) and unparse(t).split(".")[0].split("[")[0] in operands:
-                        r.violation("C14.R5", f.qual, unparse(n)[:120], "'+' assigns into its operand", loc)
+                        r.violation(rid, f.qual, unparse(n)[:120], "'+' assigns into its operand", loc)
                 if isinstance(n, ast.Assign) and isinstance(n.value, ast.Attribute) and unparse(n.value).split(".")[0] in operands and unparse(n.value).endswith((".vars", ".items", ".finalizers", ".postprocessing_items", ".state")):
                     # alias of an operand's container bound to a local that is later mutated / passed on
                     nm = unparse(n.targets[0])
                     uses = [x for x in walk_no_nested(f.node) if isinstance(x, ast.Call) and isinstance(x.func, ast.Attribute) and unparse(x.func.value) == nm and x.func.attr in ("update", "append", "extend", "setdefault", "pop", "clear")]
                     passed = [x for x in walk_no_nested(f.node) if isinstance(x, ast.keyword) and unparse(x.value) == nm]
                     if uses or passed:
-                        r.violation("C14.R5", f.qual, unparse(n), f"local {nm} aliases the operand's container and is then mutated / placed into the result", loc)
-        r.ok("C14.R5", f.qual, "operator body examined for writes to / aliasing of operands", f.loc)
-    r.floor("C14.R5", 2)
+                        r.violation(rid, f.qual, unparse(n), f"local {nm} aliases the operand's container and is then mutated / placed into the result", loc)
+        r.ok(rid, f.qual, "operator body examined for writes to / aliasing of operands", f.loc)
+    r.floor(rid, 2)
